@@ -378,3 +378,61 @@ mod tests {
         assert!(mint.eq_some(&[[key, value], [hello, world]], pairs));
     }
 }
+
+#[cfg(az65_verif)]
+mod verif_hooks {
+    use super::*;
+
+    impl BytesInterner {
+        /// Verification hook: (address, capacity, length) of every backing buffer.
+        pub fn verif_buffers(&self) -> Vec<(usize, usize, usize)> {
+            self.buffers
+                .iter()
+                .map(|b| (b.as_ptr() as usize, b.capacity(), b.len()))
+                .collect()
+        }
+    }
+
+    impl BytesRef {
+        /// Verification hook: (address, length) of the handle.
+        pub fn verif_raw(&self) -> (usize, usize) {
+            (self.0.data as usize, self.0.len)
+        }
+    }
+
+    impl StrInterner {
+        pub fn verif_buffers(&self) -> Vec<(usize, usize, usize)> {
+            self.inner.verif_buffers()
+        }
+    }
+
+    impl StrRef {
+        pub fn verif_raw(&self) -> (usize, usize) {
+            self.0.verif_raw()
+        }
+    }
+
+    impl PathInterner {
+        pub fn verif_buffers(&self) -> Vec<(usize, usize, usize)> {
+            self.inner.verif_buffers()
+        }
+    }
+
+    impl PathRef {
+        pub fn verif_raw(&self) -> (usize, usize) {
+            self.0.verif_raw()
+        }
+    }
+
+    impl MetaInterner {
+        pub fn verif_buffers(&self) -> Vec<(usize, usize, usize)> {
+            self.inner.verif_buffers()
+        }
+    }
+
+    impl MetaRef {
+        pub fn verif_raw(&self) -> (usize, usize) {
+            self.0.verif_raw()
+        }
+    }
+}
